@@ -239,6 +239,9 @@ class Check:
 
     def violation(self, signature, desc, replay_obj):
         """Record a real-code violation. Known findings are matched by signature."""
+        if str(signature).startswith("harness:"):
+            # the driver could not set its scenario up (a forced schedule was not reached, ...): never a verdict about the code
+            raise MachineryError("driver problem (%s): %s" % (signature, desc))
         for f in known_findings(self.pid):
             if f["signature"] == signature:
                 if all(k[0] != signature for k in self.known_seen):
